@@ -1,4 +1,5 @@
 import AranyaV.Proofs.CompileExpr
+import AranyaV.Proofs.SupAll
 /-!
 C22: from `compileProgram = some cp` to the layout hypotheses of the simulation (`FunsOk`):
 labels are distinct (the compiler refuses duplicates), so every recorded label resolves to its
